@@ -1,5 +1,5 @@
 (* C15 -- HEAD mirrors GET without touching entity data. *)
-From HS Require Import Lib.Base Model.Body Model.Serve Proofs.ServeP Proofs.ServeProps.
+From HS Require Import Lib.Base Lib.Bytes Model.Body Model.Serve Model.Negot Model.Builder Proofs.ServeP Proofs.ServeProps Proofs.BuilderP.
 
 (* For any request, entity, clock and date oracle: the response to the request sent with HEAD
    has the same status and the same header list (Content-Length, Content-Range, the multipart
@@ -22,5 +22,18 @@ Theorem c15_head_reads_nothing : forall fmt_date parse_date now ent req r stream
   (In (status r) [200; 206; 304; 416] -> rplan r = PlOnce None).
 Proof. exact head_reads_nothing. Qed.
 
+(* `streaming_body` likewise: for any Accept-Encoding value and any sequence of builder calls, the
+   request sent with HEAD makes build() return what it returns for the same request with any other
+   method -- the same headers (Vary, Content-Encoding), or the same refusal of a zero chunk size --
+   but no writer; any other method gets a writer. *)
+Theorem c15_streaming_head_mirrors : forall meth ae cs, beq_bytes meth HEAD_M = false ->
+  exists bh bg, streaming_body HEAD_M ae = Ok bh /\ streaming_body meth ae = Ok bg /\
+  match build (fold_left bapply cs bg) with
+  | Ok (h, w) => build (fold_left bapply cs bh) = Ok (h, None) /\ w <> None
+  | Panic t => build (fold_left bapply cs bh) = Panic t
+  end.
+Proof. exact streaming_head_mirrors. Qed.
+
 Print Assumptions c15_head_mirrors_get.
 Print Assumptions c15_head_reads_nothing.
+Print Assumptions c15_streaming_head_mirrors.
